@@ -166,15 +166,25 @@ def run_item(item):
                     res["outcomes"].append(cfg)
     elif kind == "fno":
         for dim, shape, modes in ((1, (8,), 3), (1, (9,), 6), (2, (4, 5), (2, 3)), (2, (6, 4), (4, 4))):
-            for layers in (1, 2):
+            for layers in (1, 2, 3):
                 for skip, lin in ((False, True), (True, True), (True, False)):
+                    if layers == 3 and (dim == 1 or not lin):
+                        continue
                     cfg = "FNO dim=%d grid=%s modes=%s layers=%d skip=%s linear=%s" % (dim, shape, modes, layers, skip, lin)
                     res["states"].append(cfg)
                     torch.manual_seed(7 + layers)
                     try:
+                        kw = {}
+                        if layers == 3:
+                            # one mode tuple shared by all layers (shorter than the number of layers, hence unambiguous),
+                            # and user-supplied point-wise channel networks
+                            fm = list(modes)
+                            kw = dict(channel_up_sample_network=torch.nn.Sequential(torch.nn.Linear(2, 4), torch.nn.Tanh(), torch.nn.Linear(4, 3)),
+                                      channel_down_sample_network=torch.nn.Sequential(torch.nn.Linear(3, 2), torch.nn.Tanh(), torch.nn.Linear(2, 1)))
+                        else:
+                            fm = modes if dim == 1 else [list(modes)] * layers     # unambiguous list-of-lists form
                         net = tp.models.FNO(Space({"f": 2}), Space({"u": 1}), fourier_layers=layers, hidden_channels=3,
-                                            fourier_modes=modes if dim == 1 else [list(modes)] * layers,     # unambiguous list-of-lists form
-                                            skip_connections=skip, linear_connections=lin)
+                                            fourier_modes=fm, skip_connections=skip, linear_connections=lin, **kw)
                         X = basis_inputs(shape, 2)
                         X = torch.cat([X, X[:-1] + X[1:]])           # pairwise sums: the network is not linear
                         fn = lambda z: net(Points(z, Space({"f": 2}))).as_tensor
